@@ -11,7 +11,12 @@ def run(c):
               "or submitted tasks), init tasks and explicit dependencies, with duplicates / re-submissions and the "
               "submitted object itself used instead of the value returned by submit(); tokens, exit codes and random "
               "delivery orders as for C06; non-trivial = at least two jobs and one dependency; "
-              "distinct by (workload, schedule)"))
+              "distinct by (workload, schedule); + directed probes with real job processes through the Slurm launcher "
+              "(the tree's fake sbatch/srun/sacct; sacct without and with job-step lines, before or after the job line) "
+              "and the local launcher: the dependent of a failed job is never launched"))
+    schedlib.run_proc_probes(c, "C04", [dict(mode="slurm", sacct=k, hows=["return", "raise", "exit:3"])
+                                        for k in ("plain", "steps-after", "steps-before")] +
+                             [dict(mode="exit", hows=["return", "exit:2", "exit:256", "status:exit 1", "raise"])])
 
 
 if __name__ == "__main__":
